@@ -11,8 +11,8 @@
    `.contains('\n')`, `.lines().next()`) are taken on `render` of the corresponding document.
    `dlines d` is the same document as a list of lines (list (list piece)).
 
-   expr_to_source, needs_parens_in_binop and format_record_key (ast_to_source.rs) are Section
-   oracles: the formatter treats their results as opaque text.  An executable instance
+   expr_to_source, needs_parens_in_binop, needs_parens_in_postfix, lambda_body_needs_parens and
+   format_record_key (ast_to_source.rs) are oracles (record `oracles`): the formatter treats their results as opaque text.  An executable instance
    (transcription of ast_to_source.rs, number text supplied by a table) is at the end of the
    file and is what the FORMAT correspondence stream runs. *)
 From Coq Require Import String Ascii List ZArith Bool.
@@ -212,19 +212,37 @@ Definition is_via_like (op : binop) : bool :=
 Definition DEFAULT_MAX_COLUMNS : nat := 80.
 Definition INDENT_SIZE : nat := 2.
 
+(* what formatter.rs imports from ast_to_source.rs: opaque to the formatter *)
+Record oracles := Oracles {
+  o_e2s : expr -> string;                              (* expr_to_source *)
+  o_needs_parens : binop -> expr -> bool -> bool;       (* needs_parens_in_binop *)
+  o_record_key : string -> string;                      (* format_record_key *)
+  o_postfix_parens : expr -> bool;                      (* needs_parens_in_postfix *)
+  o_lambda_body_parens : expr -> bool                   (* lambda_body_needs_parens *)
+}.
+
+(* formatted.starts_with('-') *)
+Definition starts_with_minus (s : string) : bool :=
+  match s with String c _ => Ascii.eqb c "-" | "" => false end.
+
 Section Fmt.
-  Variable e2s : expr -> string.                              (* ast_to_source::expr_to_source *)
-  Variable needs_parens : binop -> expr -> bool -> bool.       (* needs_parens_in_binop *)
-  Variable record_key : string -> string.                      (* format_record_key *)
+  Variable O : oracles.
+  Local Notation e2s := (o_e2s O).
+  Local Notation needs_parens := (o_needs_parens O).
+  Local Notation record_key := (o_record_key O).
+  Local Notation postfix_parens := (o_postfix_parens O).
+  Local Notation lambda_body_parens := (o_lambda_body_parens O).
 
   (* format_single_line (formatter.rs:45-93) and format_record_entry_single_line *)
   Fixpoint fsl (e : expr) : string :=
     match e with
     | EAssign x v => x +++ " = " +++ fsl v
     | EOutput x => "output " +++ fsl x
-    | ELam args body => lambda_args_part args +++ " => " +++ fsl body
+    | ELam args body =>
+        lambda_args_part args +++ " => " +++
+        (if lambda_body_parens body then "(" +++ fsl body +++ ")" else fsl body)
     | ECall f args =>
-        (match f with ELam _ _ => "(" +++ fsl f +++ ")" | _ => fsl f end)
+        (if postfix_parens f then "(" +++ fsl f +++ ")" else fsl f)
         +++ "(" +++ sjoin ", " (map fsl args) +++ ")"
     | EList items =>
         if existsb has_comments items then "[" +++ nl +++ "]"
@@ -288,15 +306,24 @@ Section Fmt.
       | _ => [Code "{"] ++ rec_entries_doc entries (i + INDENT_SIZE) ++ [Nl; ind i; Code "}"]
       end.
 
-    (* format_lambda (271-304) *)
+    Definition wrap_parens (b : bool) (d : doc) : doc :=
+      if b then [Code "("] ++ d ++ [Code ")"] else d.
+
+    (* protect_leading_minus (formatter.rs, f304333): a statement after another one must not
+       start with "-" *)
+    Definition protect_minus (d : doc) (is_first : bool) : doc :=
+      if negb is_first && starts_with_minus (render d) then [Code "("] ++ d ++ [Code ")"] else d.
+
+    (* format_lambda; wrap_body = parentheses around a body with via/into/where (afe753e) *)
     Definition lambda_doc (args : list lamarg) (body : expr) (i : nat) : doc :=
       let args_part := lambda_args_part args +++ " =>" in
       if is_do body then [Code (args_part +++ " ")] ++ rec body i
       else
-        let single := [Code (args_part +++ " ")] ++ rec body i in
+        let wrap_body := wrap_parens (lambda_body_parens body) in
+        let single := [Code (args_part +++ " ")] ++ wrap_body (rec body i) in
         let s := render single in
         if negb (contains_nl s) && (i + String.length s <=? w)%nat then single
-        else [Code args_part; Nl; ind (i + INDENT_SIZE)] ++ rec body (i + INDENT_SIZE).
+        else [Code args_part; Nl; ind (i + INDENT_SIZE)] ++ wrap_body (rec body (i + INDENT_SIZE)).
 
     (* format_conditional_multiline (307-387); fc/ft = the recursive call on condition / then *)
     Fixpoint cond_doc (fc ft : nat -> doc) (el : expr) (i : nat) {struct el} : doc :=
@@ -313,17 +340,18 @@ Section Fmt.
         end
       else
         match el with
+        (* `if` stays on the line of its condition (c99bd9c) *)
         | ECond c2 t2 e2 =>
-            [Code "if"; Nl; ind inner] ++ fc inner ++ [Nl; ind i; Code "then"; Nl; ind inner] ++
+            [Code "if "] ++ fc inner ++ [Nl; ind i; Code "then"; Nl; ind inner] ++
             ft inner ++ [Nl; ind i; Code "else "] ++ cond_doc (rec c2) (rec t2) e2 i
         | _ =>
-            [Code "if"; Nl; ind inner] ++ fc inner ++ [Nl; ind i; Code "then"; Nl; ind inner] ++
+            [Code "if "] ++ fc inner ++ [Nl; ind i; Code "then"; Nl; ind inner] ++
             ft inner ++ [Nl; ind i; Code "else"; Nl; ind inner] ++ rec el inner
         end.
 
     (* format_call_multiline (390-429) *)
     Definition call_doc (f : expr) (args : list expr) (i : nat) : doc :=
-      let func_str := if is_lambda f then [Code "("] ++ rec f i ++ [Code ")"] else rec f i in
+      let func_str := wrap_parens (postfix_parens f) (rec f i) in
       match args with
       | [] => func_str ++ [Code "()"]
       | _ =>
@@ -332,9 +360,6 @@ Section Fmt.
           flat_map (fun a => [Nl; ind inner] ++ rec a inner ++ [Code ","]) args ++
           [Nl; ind i; Code ")"]
       end.
-
-    Definition wrap_parens (b : bool) (d : doc) : doc :=
-      if b then [Code "("] ++ d ++ [Code ")"] else d.
 
     (* `first_line_of_right` + "\n" + `remaining_lines` (formatter.rs:467-479) as a string *)
     Definition relined (s : string) : string :=
@@ -365,16 +390,16 @@ Section Fmt.
         wrap_parens rp (rec r right_indent).
 
     (* format_do_block_multiline (521-565) *)
-    Fixpoint do_stmts_doc (l : list (commented expr)) (inner : nat) : doc :=
+    Fixpoint do_stmts_doc (l : list (commented expr)) (inner : nat) (first : bool) : doc :=
       match l with
       | [] => []
       | Cm lead n tr :: rest =>
-          leading_doc inner lead ++ [Nl; ind inner] ++ rec n inner ++ trailing_doc tr ++
-          do_stmts_doc rest inner
+          leading_doc inner lead ++ [Nl; ind inner] ++ protect_minus (rec n inner) first ++
+          trailing_doc tr ++ do_stmts_doc rest inner false
       end.
     Definition do_doc (stmts : list (commented expr)) (ret : commented expr) (i : nat) : doc :=
       let inner := i + INDENT_SIZE in
-      [Code "do {"] ++ do_stmts_doc stmts inner ++
+      [Code "do {"] ++ do_stmts_doc stmts inner true ++
       leading_doc inner (cleading ret) ++ [Nl; ind inner; Code "return "] ++
       rec (cnode ret) inner ++ [Nl; ind i; Code "}"].
 
@@ -414,8 +439,8 @@ Section Fmt.
 End Fmt.
 
 (* format_expr (formatter.rs:9-12) *)
-Definition format_expr_doc e2s np rk (e : expr) (max_columns : option nat) : doc :=
-  fmtd e2s np rk (match max_columns with Some n => n | None => DEFAULT_MAX_COLUMNS end) e 0.
+Definition format_expr_doc (O : oracles) (e : expr) (max_columns : option nat) : doc :=
+  fmtd O (match max_columns with Some n => n | None => DEFAULT_MAX_COLUMNS end) e 0.
 
 (* ------------------------------------------------------------------ comments of a text
    The lexer-level scan that defines "the comment sequence of a text" (property C09's
@@ -526,44 +551,47 @@ Fixpoint relayout (start : Z) (l : list (doc * Z * Z)) : list (doc * Z * Z) :=
       end
   end.
 
-Section Drivers.
-  Variable e2s : expr -> string.
-  Variable needs_parens : binop -> expr -> bool -> bool.
-  Variable record_key : string -> string.
-  Let format_expr := format_expr_doc e2s needs_parens record_key.
+Definition map_first {A B} (f : bool -> A -> B) (l : list A) : list B :=
+  match l with [] => [] | x :: r => f true x :: map (f false) r end.
 
-  (* blots-wasm/src/lib.rs:466-508 *)
-  Definition lib_stmt (max_columns : option nat) (s : stmt) : doc * Z * Z :=
+Section Drivers.
+  Variable O : oracles.
+  Local Notation format_expr := (format_expr_doc O).
+
+  (* blots-wasm/src/lib.rs::format_blots statement loop; is_first = formatted_statements.is_empty() *)
+  Definition lib_stmt (max_columns : option nat) (is_first : bool) (s : stmt) : doc * Z * Z :=
     match s with
     | St k eol sl el =>
         let formatted :=
-          match k with
-          | SComment c => [Comment c]
-          | SOut e => format_expr (EOutput e) max_columns
-          | SExpr e => format_expr e max_columns
-          end in
+          protect_minus
+            match k with
+            | SComment c => [Comment c]
+            | SOut e => format_expr (EOutput e) max_columns
+            | SExpr e => format_expr e max_columns
+            end is_first in
         (match eol with Some c => formatted ++ [Code "  "; Comment c] | None => formatted end, sl, el)
     end.
   (* None = Err("No statements found in source") *)
   Definition format_lib (max_columns : option nat) (p : list stmt) : option doc :=
     match p with
     | [] => None
-    | _ => Some (join_spacing (map (lib_stmt max_columns) p))
+    | _ => Some (join_spacing (map_first (lib_stmt max_columns) p))
     end.
 
   (* blots/src/main.rs --format loop (since 9255709: the statement's second pair, its
      end-of-line comment, is appended as "  " + comment; every statement is followed by "\n";
-     blank lines between statements are not kept) *)
-  Definition cli_stmt (s : stmt) : doc :=
+     blank lines between statements are not kept; since f304333 an expression statement is
+     passed through protect_leading_minus with is_first = formatted_output.is_empty()) *)
+  Definition cli_stmt (is_first : bool) (s : stmt) : doc :=
     match s with
     | St k eol _ _ =>
         (match k with
-         | SExpr e => format_expr e None
+         | SExpr e => protect_minus (format_expr e None) is_first
          | SOut e => format_expr (EOutput e) None
          | SComment c => [Comment c]
          end) ++ (match eol with Some c => [Code "  "; Comment c] | None => [] end) ++ [Nl]
     end.
-  Definition format_cli (p : list stmt) : doc := flat_map cli_stmt p.
+  Definition format_cli (p : list stmt) : doc := concat (map_first cli_stmt p).
 End Drivers.
 
 (* ------------------------------------------------------------------ comment re-attachment
@@ -659,8 +687,10 @@ Arguments lpair : clear implicits.
 Arguments dpair : clear implicits.
 
 (* ------------------------------------------------------------------ executable oracles
-   Transcription of ast_to_source.rs::expr_to_source / format_record_key, used to RUN the model
-   against the implementation.  The theorems never look inside these. *)
+   Transcription of ast_to_source.rs (expr_to_source, string_to_source, format_record_key,
+   binding_level, tail, needs_parens_in_binop / _unary / _postfix, lambda_body_needs_parens as of
+   afe753e), used to RUN the model against the implementation.  The theorems never look inside
+   these.  operator_info comes from coq/gen/ParensTable.v (regenerated from the built crate). *)
 Definition RESERVED_WORDS : list string :=
   ["if"; "then"; "else"; "true"; "false"; "null"; "and"; "or"; "not"; "do"; "return"; "output"].
 
@@ -680,19 +710,29 @@ Definition is_valid_identifier (s : string) : bool :=
       && all_chars (fun c => ascii_alpha c || ascii_digit c || Ascii.eqb c "_") r
   end.
 
-(* s.replace("\\", "\\\\").replace("\"", "\\\"") *)
-Fixpoint escape_str (s : string) : string :=
+Definition has_char (q : ascii) (s : string) : bool := negb (all_chars (fun c => negb (Ascii.eqb c q)) s).
+Definition dq : ascii := """"%char.
+Definition sq : ascii := "'"%char.
+(* s.split on the double quote *)
+Fixpoint split_dq (s : string) : list string :=
   match s with
-  | "" => ""
+  | "" => [""]
   | String c r =>
-      if Ascii.eqb c "\" then String "\" (String "\" (escape_str r))
-      else if Ascii.eqb c """" then String "\" (String """" (escape_str r))
-      else String c (escape_str r)
+      if Ascii.eqb c dq then "" :: split_dq r
+      else match split_dq r with x :: t => String c x :: t | [] => [String c ""] end
   end.
-Definition quote_str (s : string) : string := String """" (escape_str s) +++ String """" "".
+(* string_to_source: a quote character that does not occur in the string, else a parenthesised
+   concatenation of the pieces between its double quotes *)
+Definition string_to_source (s : string) : string :=
+  if negb (has_char dq s) then String dq s +++ String dq ""
+  else if negb (has_char sq s) then String sq s +++ String sq ""
+  else "(" +++ sjoin (" + '" +++ String dq "' + ")
+                (map (fun p => String dq p +++ String dq "") (split_dq s)) +++ ")".
 
 Definition record_key_impl (key : string) : string :=
-  if is_valid_identifier key then key else quote_str key.
+  if is_valid_identifier key then key
+  else if has_char dq key && has_char sq key then "[" +++ string_to_source key +++ "]"
+  else string_to_source key.
 
 Definition binop_index (op : binop) : nat :=
   match op with
@@ -702,30 +742,77 @@ Definition binop_index (op : binop) : nat :=
   | DotGreaterEq => 17 | And => 18 | NaturalAnd => 19 | Or => 20 | NaturalOr => 21
   | Via => 22 | Into => 23 | Where => 24 | Coalesce => 25
   end.
-(* index of a non-binary child kind in the rows of gen/ParensTable.v *)
-Definition other_index (e : expr) : nat :=
-  match e with
-  | ENum _ => 0 | EStr _ => 1 | EBool _ => 2 | ENull => 3 | EId _ => 4 | EInRef _ => 5
-  | EBuiltin _ => 6 | EList _ => 7 | ERec _ => 8 | ELam _ _ => 9 | ECond _ _ _ => 10
-  | EDo _ _ => 11 | EAssign _ _ => 12 | EOutput _ => 13 | ECall _ _ => 14 | EAccess _ _ => 15
-  | EDot _ _ => 16 | EUn Negate _ => 17 | EUn Not _ => 18 | EUn Invert _ => 19 | EFact _ => 20
-  | ESpread _ => 21 | EBin _ _ _ => 0
-  end.
-(* row of a parent operator: (binary child left, binary child right, other left, other right) *)
-Definition parens_row := (list bool * list bool * list bool * list bool)%type.
-Definition needs_parens_tbl (tbl : list parens_row) (op : binop) (child : expr) (is_left : bool) : bool :=
-  match nth_error tbl (binop_index op) with
-  | None => false
-  | Some (bl, br, ol, or) =>
-      match child with
-      | EBin cop _ _ => nth (binop_index cop) (if is_left then bl else br) false
-      | _ => nth (other_index child) (if is_left then ol else or) false
-      end
-  end.
+
+Section Parens.
+  (* operator_info: (precedence, is right-associative) per operator, in binop_index order *)
+  Variable opinfo : list (nat * bool).
+  Definition op_prec (op : binop) : nat := fst (nth (binop_index op) opinfo (0, false)).
+  Definition op_right (op : binop) : bool := snd (nth (binop_index op) opinfo (0, false)).
+
+  Definition PREFIX_LEVEL : nat := 253.
+  Definition POSTFIX_LEVEL : nat := 254.
+  Definition PRIMARY_LEVEL : nat := 255.
+  Definition binding_level (e : expr) : nat :=
+    match e with
+    | EBin op _ _ => op_prec op
+    | EUn _ _ | ESpread _ => PREFIX_LEVEL
+    | EFact _ | ECall _ _ | EAccess _ _ | EDot _ _ => POSTFIX_LEVEL
+    | _ => PRIMARY_LEVEL
+    end.
+
+  Inductive tailk := TClosed | TLambda | TGreedy.
+  Definition tailk_eqb (a b : tailk) : bool :=
+    match a, b with TClosed, TClosed | TLambda, TLambda | TGreedy, TGreedy => true | _, _ => false end.
+
+  (* needs_parens_in_binop given the child's binding level and tail *)
+  Definition npb_of (op : binop) (level : nat) (t : tailk) (is_left : bool) : bool :=
+    (level <? op_prec op)%nat
+    || ((level =? op_prec op)%nat && Bool.eqb is_left (op_right op))
+    || (is_left && match t with
+                   | TClosed => false
+                   | TLambda => negb (is_via_like op)
+                   | TGreedy => true
+                   end).
+  Definition npu_of (level : nat) : bool := (level <? PREFIX_LEVEL)%nat.
+
+  (* (tail e, lambda_body_needs_parens e), by mutual structural recursion *)
+  Fixpoint tail_lbp (e : expr) : tailk * bool :=
+    match e with
+    | ELam _ body =>
+        let (tb, lb) := tail_lbp body in
+        (if lb then TLambda else if negb (tailk_eqb tb TGreedy) then TLambda else TGreedy, false)
+    | ECond _ _ _ | EAssign _ _ | EOutput _ => (TGreedy, false)
+    | EBin op l r =>
+        let (tl_, ll) := tail_lbp l in
+        let (tr, lr) := tail_lbp r in
+        let npl := npb_of op (binding_level l) tl_ true in
+        let npr := npb_of op (binding_level r) tr false in
+        (if negb npr then tr else TClosed,
+         is_via_like op || (negb npl && ll) || (negb npr && lr))
+    | EUn _ x =>
+        let (tx, lx) := tail_lbp x in
+        let npu := npu_of (binding_level x) in
+        (if negb npu then tx else TClosed, negb npu && lx)
+    | _ => (TClosed, false)
+    end.
+  Definition tail_of (e : expr) : tailk := fst (tail_lbp e).
+  Definition lambda_body_parens_impl (e : expr) : bool := snd (tail_lbp e).
+  Definition needs_parens_impl (op : binop) (child : expr) (is_left : bool) : bool :=
+    npb_of op (binding_level child) (tail_of child) is_left.
+  Definition unary_parens_impl (child : expr) : bool := npu_of (binding_level child).
+  Definition postfix_parens_impl (child : expr) : bool :=
+    (binding_level child <? POSTFIX_LEVEL)%nat || negb (tailk_eqb (tail_of child) TClosed).
+End Parens.
+
+(* protect_leading_minus on strings *)
+Definition protect_minus_str (s : string) (is_first : bool) : string :=
+  if negb is_first && starts_with_minus s then "(" +++ s +++ ")" else s.
 
 Section E2S.
   Variable num_text : num -> string.                 (* f64 Display / {:.0} : library, table-fed *)
-  Variable np : binop -> expr -> bool -> bool.
+  Variable opinfo : list (nat * bool).
+  Local Notation np := (needs_parens_impl opinfo).
+  Local Notation parens_if := (fun (b : bool) (s : string) => if b then "(" +++ s +++ ")" else s).
 
   Definition unary_op_str (op : unop) : string :=
     match op with Negate => "-" | Not => "!" | Invert => "~" end.
@@ -733,7 +820,7 @@ Section E2S.
   Fixpoint e2s_impl (e : expr) : string :=
     match e with
     | ENum x => num_text x
-    | EStr s => quote_str s
+    | EStr s => string_to_source s
     | EBool b => if b then "true" else "false"
     | ENull => "null"
     | EId x => x
@@ -749,33 +836,33 @@ Section E2S.
                          | REntry (KSpread x) _ => e2s_impl x
                          end) entries) +++ "}"
     | ELam args body =>
-        "(" +++ sjoin ", " (map lambda_arg_to_str args) +++ ") => " +++ e2s_impl body
+        "(" +++ sjoin ", " (map lambda_arg_to_str args) +++ ") => " +++
+        parens_if (lambda_body_parens_impl opinfo body) (e2s_impl body)
     | ECond c t f => "if " +++ e2s_impl c +++ " then " +++ e2s_impl t +++ " else " +++ e2s_impl f
     | EDo stmts (Cm rl rn _) =>
         "do {" +++
-        (fix go (l : list (commented expr)) : string :=
+        (fix go (l : list (commented expr)) (first : bool) : string :=
            match l with
            | [] => ""
            | Cm lead n tr :: r =>
                String.concat "" (map (fun c => nl +++ "  " +++ c) lead) +++
-               nl +++ "  " +++ e2s_impl n +++
-               (match tr with Some t => "  " +++ t | None => "" end) +++ go r
-           end) stmts +++
+               nl +++ "  " +++ protect_minus_str (e2s_impl n) first +++
+               (match tr with Some t => "  " +++ t | None => "" end) +++ go r false
+           end) stmts true +++
         String.concat "" (map (fun c => nl +++ "  " +++ c) rl) +++
         nl +++ "  return " +++ e2s_impl rn +++ nl +++ "}"
     | EAssign x v => x +++ " = " +++ e2s_impl v
     | EOutput x => "output " +++ e2s_impl x
     | ECall f args =>
-        (match f with ELam _ _ => "(" +++ e2s_impl f +++ ")" | _ => e2s_impl f end)
+        parens_if (postfix_parens_impl opinfo f) (e2s_impl f)
         +++ "(" +++ sjoin ", " (map e2s_impl args) +++ ")"
-    | EAccess a i => e2s_impl a +++ "[" +++ e2s_impl i +++ "]"
-    | EDot a f => e2s_impl a +++ "." +++ f
+    | EAccess a i => parens_if (postfix_parens_impl opinfo a) (e2s_impl a) +++ "[" +++ e2s_impl i +++ "]"
+    | EDot a f => parens_if (postfix_parens_impl opinfo a) (e2s_impl a) +++ "." +++ f
     | EBin op l r =>
-        (if np op l true then "(" +++ e2s_impl l +++ ")" else e2s_impl l) +++ " " +++
-        binary_op_str op +++ " " +++
-        (if np op r false then "(" +++ e2s_impl r +++ ")" else e2s_impl r)
-    | EUn op a => unary_op_str op +++ e2s_impl a
-    | EFact a => e2s_impl a +++ "!"
+        parens_if (np op l true) (e2s_impl l) +++ " " +++ binary_op_str op +++ " " +++
+        parens_if (np op r false) (e2s_impl r)
+    | EUn op a => unary_op_str op +++ parens_if (unary_parens_impl opinfo a) (e2s_impl a)
+    | EFact a => parens_if (postfix_parens_impl opinfo a) (e2s_impl a) +++ "!"
     | ESpread a => "..." +++ e2s_impl a
     end.
 End E2S.
@@ -785,15 +872,16 @@ Definition num_text_tbl (tbl : list (Z * string)) (x : num) : string :=
   match find (fun kv => Z.eqb (fst kv) b) tbl with Some kv => snd kv | None => "?" end.
 
 (* ------------------------------------------------------------------ running the model *)
-Section Run.
-  Variable ptbl : list parens_row.
-  Variable ntbl : list (Z * string).
-  Let np := needs_parens_tbl ptbl.
-  Let e2s := e2s_impl (num_text_tbl ntbl) np.
+Definition oracles_impl (opinfo : list (nat * bool)) (ntbl : list (Z * string)) : oracles :=
+  Oracles (e2s_impl (num_text_tbl ntbl) opinfo) (needs_parens_impl opinfo) record_key_impl
+          (postfix_parens_impl opinfo) (lambda_body_parens_impl opinfo).
 
+Section Run.
+  Variable opinfo : list (nat * bool).
+  Variable ntbl : list (Z * string).
   Definition run_lib (width : option nat) (p : list stmt) : option doc :=
-    format_lib e2s np record_key_impl width p.
-  Definition run_cli (p : list stmt) : doc := format_cli e2s np record_key_impl p.
+    format_lib (oracles_impl opinfo ntbl) width p.
+  Definition run_cli (p : list stmt) : doc := format_cli (oracles_impl opinfo ntbl) p.
 End Run.
 
 (* "<hex text> <shown comments> <comments under opaquely printed expressions>" *)
